@@ -354,3 +354,9 @@ pub fn clauses() -> Vec<Clause> {
         Clause::generated("C15", "C15/chains/relassert", rule_chain, 6000, 200_000, chain_cases("relassert"), chain_check("relassert")).with_profile("relassert").with_shard(500),
     ]
 }
+
+/// entry point for the libFuzzer targets (profile = the profile this crate was compiled with)
+pub fn fuzz_check(case: &Case) -> Verdict {
+    let profile: &'static str = if cfg!(debug_assertions) { "relassert" } else { "release" };
+    chain_check(profile)(case)
+}
